@@ -218,7 +218,8 @@ void FlexPath::transform(double magnification, bool x_reflection, double rotatio
         p->x = q.x * ca - q.y * sa + origin.x;
         p->y = q.x * sa + q.y * ca + origin.y;
     }
-    Vec2 wo_scale = {1, magnification};
+    // Offsets are measured to the left of the path direction: a reflection swaps the sides
+    Vec2 wo_scale = {1, x_reflection ? -magnification : magnification};
     if (scale_width) wo_scale.x = magnification;
     FlexPathElement* el = elements;
     for (uint64_t ne = 0; ne < num_elements; ne++, el++) {
